@@ -1,3 +1,4 @@
+pub mod iofault;
 pub mod par;
 pub mod rec;
 pub mod report;
